@@ -52,6 +52,10 @@ CHECKS = {
    technique="TLA+ spec (FixedForm.tla: layout generator + transliterated FortranLine/convertToFree composed with the reader mechanism; FixedForm_Trace.tla) model-checked with TLC; generated layouts read by FortranReader(fixed=True); recorded convertToFree executions validated by TLC; whole programs rendered in both forms and canonical trees compared",
    text="TLC checks Equivalent (converter o reader yields the logical content) for every fixed-form layout within the bound (labels, five continuation characters, C/c/*/! comment lines and short/long blank lines between continued lines, inline comments and docs, sequence-field text; length limit on and off) on the converter without deviations, and shows each named deviation is caught. Each generated layout is read by the real FortranReader(fixed=True) and compared with the logical content; convertToFree input/output of the generated cases and of the repository's .f file is checked line by line against the converter model by TLC; a corpus of programs is rendered as free and as fixed form (seeded random breaks inside expressions and argument lists, labels, comment styles, columns 73+, wide lines with the limit off) and the canonical entity trees, docs and calls compared.",
    note="Bounded: <=2 statements x <=3 tokens, feature budget 2-3 (quick replays a seeded eighth of the layouts). Tab-format and OpenMP sentinels not generated. Trusted: TLC, renderers, vlib/tree.py."),
+ "C15": dict(level="exploration", ref="DESIGN.md 6/C15, 4.10, B.12",
+   technique="TLA+ spec (Settings.tla: precedence cli > --config > file > default, independence of format and working directory) checked with TLC and used as generator/oracle; every ProjectSettings field x every configuration case run through ford.initialize()",
+   text="TLC checks Precedence / FormatIndependent on the reference and enumerates the configuration cases (type class x {Markdown metadata, fpm.toml} x defined in file / --config / dedicated flag x working directory). The harness reads the option list and types from the ProjectSettings dataclass itself, writes each case in the format's natural typed syntax (TOML arrays, tables, booleans, integers; one item per line in metadata; multi-line strings), runs the real ford.initialize() (argv, project file, optional fpm.toml) from two working directories and compares the effective value with the winning source's value (paths anchored at the project file); unknown keys must be reported without aborting, ill-typed flag/integer values must be rejected naming the option.",
+   note="The TLA+ content is the precedence table (small by nature); value conversion is decided by the replay. 61 of 85 options varied; options needing real resources or derived values are listed in the evidence. Trusted: tomllib, argparse, the renderers."),
 }
 
 NOT_YET = {}
